@@ -7111,7 +7111,18 @@ pub(crate) fn eval(env: &mut Env, session: &Session) -> Result<Value, EvalError>
         if let Some((mut expr_state, outer_expr)) = env.current_frame_mut().exprs_to_eval.pop() {
             env.ticks += 1;
 
+            #[cfg(wilfred_garden_verif)]
+            crate::verif::on_tick(
+                env.ticks,
+                &session.interrupted,
+                &format!("{:?}", expr_state),
+                crate::verif::expr_kind(&outer_expr.expr_),
+                env.stack.0.len(),
+            );
+
             if session.interrupted.load(Ordering::SeqCst) {
+                #[cfg(wilfred_garden_verif)]
+                crate::verif::point("interrupt_seen", "");
                 session.interrupted.store(false, Ordering::SeqCst);
                 restore_stack_frame(env, (expr_state, outer_expr), &[]);
                 return Err(EvalError::Interrupted);
